@@ -469,6 +469,8 @@ func guardsAt(p *Program, fn *ssa.Function, b *ssa.BasicBlock) map[string]bool {
 	g := map[string]bool{}
 	for _, rl := range FactsOf(fn).At(b).Rels() {
 		g[p.RenderShort(rl.x)+" "+rl.op.String()+" "+p.RenderShort(rl.y)] = true
+		// the same relation read from right to left
+		g[p.RenderShort(rl.y)+" "+flip(rl.op).String()+" "+p.RenderShort(rl.x)] = true
 	}
 	return g
 }
